@@ -210,8 +210,9 @@ def classify(f, v, stage, exn, ctx=None):
     if t == "tuple" and v[0] == "tuple":
         if len(f["items"]) == 1 and stage == "deser-raises" and exn == "IndexError" and n == 0:
             return "tuple-homogeneous:empty"
-        if stage in ("ser-raises", "deser-raises", "not-equal") and n and any(needs_field_to_serialize(g) for g in f["items"]):
-            return "tuple:item-serialized-without-its-field"
+        if stage in ("ser-raises", "deser-raises", "not-equal") and n and (
+                any(needs_field_to_serialize(g) for g in f["items"]) or any(x[0] == "dec" for x in v[1])):
+            return "tuple:item-serialized-without-its-field"       # a Decimal, too, is rendered by its field only
         if len(f["items"]) == 1:
             if stage == "deser-raises" and exn == "IndexError" and n == 0:
                 return "tuple-homogeneous:empty"
@@ -299,8 +300,11 @@ def diagnose(c, kw, x, o, ctx, depth=0):
     extras = [k for k, _ in kw if k not in fields]
     if none_required and o["stage"] == "deser-raises":
         shape = "required-field-holding-None"
-    elif o["compact"] and o["stage"] in ("deser-raises", "not-equal") and isinstance(o.get("doc"), dict):
+    elif o["compact"] and o["stage"] in ("deser-raises", "not-equal", "not-fixpoint") and isinstance(o.get("doc"), dict) \
+            and X.compact_wrapper(ctx.classes[c["name"]]):
         shape = "compact-wrapper:value-serializes-to-a-JSON-object"
+        if o["stage"] == "not-fixpoint":
+            o = dict(o, stage="not-equal", exn="neq")       # one root cause, one key, whichever clause exposed it
     elif extras and o["stage"] in ("not-equal", "not-fixpoint") and keep_undefined_fixes(ctx.classes[c["name"]], x, o):
         shape = "additional-properties:extras-dropped-unless-keep_undefined=True"
         o = dict(o, stage="not-equal", exn="neq")       # one root cause, one key, whichever clause exposed it
